@@ -2,20 +2,19 @@
 (* Behaviour generator for C41: every completed (client, server) pair of NegotiateMC *)
 (* is printed once as a JSON case with the Layer-P expectation (decisive) and the    *)
 (* Layer-M expectation (diagnostic).                                                 *)
-(* Presets = {"file"}: the pairs come from inputs.ndjson (seeded sampling of the     *)
+(* Preset "file": the pairs come from inputs.ndjson (seeded sampling of the     *)
 (* full cross product by the family driver); TLC checks that each lies in the        *)
 (* alphabet (InvWellFormed) and computes the expectations.                           *)
 EXTENDS NegotiateMC, Json
 
 VARIABLE src
 
-FromFile == Presets = {"file"}
-In == IF FromFile THEN ndJsonDeserialize("inputs.ndjson") ELSE <<>>
+HasFile == "file" \in Presets
+In == IF HasFile THEN ndJsonDeserialize("inputs.ndjson") ELSE <<>>
 
-GInit == IF FromFile
-         THEN /\ src \in 1..Len(In) /\ pre = "file" /\ stage = 6
-              /\ cl = In[src].cl /\ sv = In[src].sv
-         ELSE Init /\ src = 0
+GInit == \/ Init /\ pre # "file" /\ src = 0
+         \/ /\ HasFile /\ src \in 1..Len(In) /\ pre = "file" /\ stage = 6
+            /\ cl = In[src].cl /\ sv = In[src].sv
 
 \* dedicated final step: under -simulate every generated successor is evaluated for invariants,
 \* so printing is tied to a step that has exactly one successor
@@ -33,6 +32,6 @@ InvWellFormed ==
     /\ SeqOver(sv.suites, AllSuites) /\ SeqOver(sv.np, Protos)
     /\ sv.rule.on \in BOOLEAN /\ sv.rule.grade \in Grades /\ SeqOver(sv.rule.np, Protos)
 
-Emit == stage = 7 => PrintT(ToJson([id |-> IF FromFile THEN In[src].id ELSE 0, cl |-> cl, sv |-> sv, pre |-> pre,
+Emit == stage = 7 => PrintT(ToJson([id |-> IF src > 0 THEN In[src].id ELSE 0, cl |-> cl, sv |-> sv, pre |-> pre,
                                     expP |-> Allowed(cl, sv), expM |-> Mech(cl, sv)]))
 =============================================================================
